@@ -63,9 +63,11 @@ def hand_trace(tid, blocks, restarts=(), cfg=None):
             t['steps'].append({'a': 'Execute', 'args': [b], 'post': None})
         t['steps'].append({'a': 'Commit', 'args': [], 'post': None})
         t['steps'].append({'a': 'Query', 'args': ['state'], 'post': None})
+        t['steps'].append({'a': 'Query', 'args': ['call'], 'post': None})
         if h in restarts:
             t['steps'].append({'a': 'Restart', 'args': [], 'post': None})
             t['steps'].append({'a': 'Query', 'args': ['state'], 'post': None})
+            t['steps'].append({'a': 'Query', 'args': ['call'], 'post': None})
     return t
 
 
@@ -90,7 +92,7 @@ def run(ctx, replay=None):
                              workers=1 if dump else W, timeout=400 if quick else 2400)
         if dump:
             # vacuity: every action of the specification fires (Query is exercised by the other configurations)
-            vac = [a for a, (d, t) in r.coverage.items() if t == 0 and a != 'Query']
+            vac = [a for a, (d, t) in r.coverage.items() if t == 0 and a not in ('Query', 'Next')]
             ctx.cov['action_coverage'] = {a: list(v) for a, v in r.coverage.items()}
             if vac or not r.coverage:
                 ctx.inconclusive.append('vacuous actions in AppLifecycle: %s' % vac)
